@@ -49,6 +49,20 @@ def fill(outer, inner):
     return outer
 
 
+def strip_loopexit(r):
+    """continue/break end the loop body like a return, but are not returns of the function."""
+    if r is None:
+        return None
+    if isinstance(r, tuple) and r and r[0] == "loopexit":
+        return None
+    if isinstance(r, tuple) and r and r[0] == "ifexp":
+        a, b = strip_loopexit(r[2]), strip_loopexit(r[3])
+        if a is None and b is None:
+            return None
+        return ("ifexp", r[1], a if a is not None else NORET, b if b is not None else NORET)
+    return None if r == NORET else r
+
+
 def subterms(t):
     """Pre-order iterator over all sub-terms (tuples whose head is a string)."""
     stack = [t]
@@ -90,6 +104,18 @@ BUILTINS = {"len", "range", "tuple", "list", "dict", "set", "isinstance", "map",
 SCAN_NAMES = {"jax.lax.scan"}
 VMAP_NAMES = {"genjax.pjax.modular_vmap", "jax.vmap"}
 TREEMAP_NAMES = {"jax.tree_util.tree_map", "jax.tree.map"}
+
+
+OPAQUE_DEFAULT = {
+    "genjax.core._check_address_collision", "genjax.core._check_address_collision_visited", "genjax.core._get_generative_function_info",
+    "genjax.core._get_current_call_location", "genjax.inference.mcmc._create_log_density_wrt_selected",
+    "genjax.inference.smc._create_particle_collection",
+    "genjax.adev._zero_tangent_like", "genjax.adev._discrete_zero_tangent", "genjax.adev._first_leaf", "genjax.adev._flip_lane_rb_estimate",
+    "genjax.adev._canonicalize_tangent_for_primitive_jvp", "genjax.adev._instantiate_zero_tangents", "genjax.adev._is_ad_zero", "genjax.adev._is_float0_tangent",
+    "genjax.state._nested_dict_set", "genjax.state._nested_dict_get", "genjax.state._namespace_push", "genjax.state._namespace_pop",
+    "genjax.pjax._capture_binding_context", "genjax._compat.ensure_jax_tfp_compat",
+}
+OPAQUE_SELF_METHODS = {"_compute_outer_batch_dim", "_handle_modular_vmap", "_make_flat", "_format_message", "_format_full_message"}
 
 
 class Closure:
@@ -143,6 +169,10 @@ class Evaluator:
         self.inline_methods_on_ctor = inline_methods_on_ctor
         self.self_inline = set(self_inline)
         self.known_len_fields = {}  # attribute name -> static length (verified separately by a rule)
+        # private helpers (leading underscore) of the repo are inlined by default, so that extracting a helper does not
+        # change the symbolic value; the ones rules treat as atoms are listed here
+        self.auto_inline_private = True
+        self.opaque = set(OPAQUE_DEFAULT)
         self._inlining = []
         self.unresolved = set()
 
@@ -330,6 +360,8 @@ class Evaluator:
 
     def assign_target(self, tgt, val, fr, st):
         if isinstance(tgt, ast.Name):
+            if any(isinstance(g[0], tuple) and g[0] and g[0][0] == "loop" for g in fr.guards):
+                self.event(fr, "assign", (tgt.id, val), st)
             fr.env[tgt.id] = val
         elif isinstance(tgt, (ast.Tuple, ast.List)):
             n = len(tgt.elts)
@@ -362,12 +394,12 @@ class Evaluator:
                         self.assign_target(e, v, fr, st)
         elif isinstance(tgt, ast.Attribute):
             base = self.expr(tgt.value, fr)
-            self.event(fr, "store", (("attr", base, tgt.attr), val), st)
+            self.event(fr, "store", (("attr", base, tgt.attr), val, tgt.value.id if isinstance(tgt.value, ast.Name) else None), st)
             fr.env[("attr", base, tgt.attr)] = val
         elif isinstance(tgt, ast.Subscript):
             base = self.expr(tgt.value, fr)
             idx = self.expr(tgt.slice, fr)
-            self.event(fr, "store", (("idx", base, idx), val), st)
+            self.event(fr, "store", (("idx", base, idx), val, tgt.value.id if isinstance(tgt.value, ast.Name) else None), st)
             if isinstance(tgt.value, ast.Name) and isinstance(fr.env.get(tgt.value.id), tuple) and fr.env[tgt.value.id][0] == "dict" and idx[0] == "const":
                 d = fr.env[tgt.value.id]
                 items = tuple((k, v) for k, v in d[1] if k != idx) + ((idx, val),)
@@ -427,8 +459,10 @@ class Evaluator:
             fr.env = self.merge_env(c, env_a, env_b)
         elif a_falls:
             fr.env = env_a
+            fr.guards = base_guards + ((c, True),)   # the else-branch left: the rest runs under c
         elif b_falls:
             fr.env = env_b
+            fr.guards = base_guards + ((c, False),)  # the then-branch left: the rest runs under not c
         else:
             fr.env = base_env
         if ra is None and rb is None:
@@ -487,7 +521,7 @@ class Evaluator:
         base_guards = fr.guards
         fr.guards = base_guards + ((("loop", lid, it), True),)
         self.event(fr, "loop", (lid, it), st)
-        r = self.block(st.body, fr)
+        r = strip_loopexit(self.block(st.body, fr))
         fr.guards = base_guards
         for n in carried:
             step = fr.env.get(n)
@@ -512,7 +546,7 @@ class Evaluator:
         c = self.expr(st.test, fr)
         base_guards = fr.guards
         fr.guards = base_guards + ((("loop", lid, c), True),)
-        r = self.block(st.body, fr)
+        r = strip_loopexit(self.block(st.body, fr))
         fr.guards = base_guards
         for n in carried:
             step = fr.env.get(n)
@@ -522,9 +556,10 @@ class Evaluator:
         return None
 
     def s_Break(self, st, fr):
-        return None
+        return ("loopexit", "break")
 
-    s_Continue = s_Break
+    def s_Continue(self, st, fr):
+        return ("loopexit", "continue")
 
     def s_With(self, st, fr):
         for item in st.items:
@@ -856,12 +891,46 @@ class Evaluator:
         return self.call_term(fn, args, tuple(kwargs), fr, e)
 
     # ------------------------------------------------------------------ calls
+    def canon_ctor(self, fn, args, kwargs):
+        """Keyword arguments of a repo dataclass constructor are rewritten positionally (field order) when they
+        continue the positional prefix, so Foo(a, b) and Foo(x=a, y=b) are one term."""
+        if fn[0] != "name" or not kwargs or any(k is None for k, _ in kwargs) or any(a[0] == "star" for a in args):
+            return args, kwargs
+        r = self.p.lookup(fn[1])
+        if r is None or r[0] != "class":
+            return args, kwargs
+        fields = self.p.dataclass_fields(r[1])
+        if not fields:
+            return args, kwargs
+        kw = dict(kwargs)
+        out = list(args)
+        rest = list(kwargs)
+        for f in fields[len(args):]:
+            if f in kw:
+                out.append(kw[f])
+                rest = [(k, v) for k, v in rest if k != f]
+            else:
+                break
+        return tuple(out), tuple(rest)
+
     def call_term(self, fn, args, kwargs, fr, node):
+        args, kwargs = self.canon_ctor(fn, tuple(args), tuple(kwargs))
         t = ("call", fn, tuple(args), tuple(kwargs))
         if fr is not None:
             self.event(fr, "call", t, node)
         r = self.simplify_call(t, fr, node)
         return r if r is not None else t
+
+    def absorb(self, fr, s):
+        """Propagate an inlined callee's side effects to the caller: guarded events and stores into shared objects
+        (attribute / subscript stores are keyed by the stored-into term, which is caller-visible after argument binding)."""
+        if fr is None or s is None:
+            return
+        if s.frame.events is not fr.events:
+            fr.events.extend((fr.guards + g, k, p, ln, q) for g, k, p, ln, q in s.events)
+        for k, v in s.env.items():
+            if isinstance(k, tuple):
+                fr.env[k] = v
 
     def kwget(self, kwargs, name, default=None):
         for k, v in kwargs:
@@ -874,7 +943,10 @@ class Evaluator:
         depth = len(self._inlining)
         # --- direct closure call
         if fn[0] == "closure" and depth < self.max_inline_depth:
-            return self.apply_closure(fn, args, kwargs)
+            r = self.apply_closure(fn, args, kwargs)
+            if r is not None:
+                self.absorb(fr, getattr(self, "last_closure_summary", None))
+            return r
         if fn[0] == "name":
             nm = fn[1]
             if nm in SCAN_NAMES:
@@ -907,15 +979,16 @@ class Evaluator:
                     return C(r)
             if nm == "functools.partial" and args:
                 return ("partial", args[0], tuple(args[1:]), tuple(kwargs))
-            if nm in self.inline and depth < self.max_inline_depth and nm not in self._inlining:
+            auto = self.auto_inline_private and nm.startswith("genjax.") and nm.rsplit(".", 1)[-1].startswith("_") \
+                and not nm.rsplit(".", 1)[-1].startswith("__") and nm not in self.opaque
+            if (nm in self.inline or auto) and depth < self.max_inline_depth and nm not in self._inlining:
                 r = self.p.lookup(nm)
                 if r and r[0] in ("func", "method"):
                     self._inlining.append(nm)
                     try:
                         s = self.eval_funcnode(r[1], r[2], nm, cls=r[3].name if r[3] is not None else None,
                                                args=args, kwargs=kwargs, parent=None)
-                        if fr is not None:
-                            fr.events.extend((fr.guards + g, k, p, ln, q) for g, k, p, ln, q in s.events)
+                        self.absorb(fr, s)
                         return s.ret
                     finally:
                         self._inlining.pop()
@@ -933,7 +1006,9 @@ class Evaluator:
         if fn[0] == "partial":
             return self.call_term(fn[1], fn[2] + tuple(args), fn[3] + tuple(kwargs), fr, node)
         # --- forwarding method on self (whitelisted per rule)
-        if fn[0] == "attr" and fn[1] == ("param", "self") and fn[2] in self.self_inline and fr is not None and fr.cls and depth < self.max_inline_depth:
+        if fn[0] == "attr" and fn[1] == ("param", "self") and fr is not None and fr.cls and depth < self.max_inline_depth and \
+                (fn[2] in self.self_inline or (self.auto_inline_private and fn[2].startswith("_") and not fn[2].startswith("__")
+                                               and fn[2] not in OPAQUE_SELF_METHODS)):
             cnode = fr.module.defs.get(fr.cls)
             if isinstance(cnode, ast.ClassDef):
                 mnode = self.p.class_member(cnode, fn[2], fr.module)
@@ -942,7 +1017,7 @@ class Evaluator:
                     self._inlining.append(key)
                     try:
                         s = self.eval_funcnode(mnode, fr.module, key, cls=fr.cls, args=(fn[1],) + tuple(args), kwargs=kwargs)
-                        fr.events.extend((fr.guards + g, k, p, ln, q) for g, k, p, ln, q in s.events)
+                        self.absorb(fr, s)
                         return s.ret
                     finally:
                         self._inlining.pop()
